@@ -275,23 +275,23 @@ LSCand(s1, s2) == Clamp(LSNew(eta1, eta2, s1, s2))
 LSClose(e) == e # NaN /\ eta2 # NaN /\ RLt(RAbs(FSub(e, eta2)), F001)      \* abs(eta2 - eta1) < 0.01 after eta1 = eta2
 LSCalls(c1, c2) == <<CallFint(c1, total), CallFint(c2, total)>>
 
-LineSearchDone(c1, c2, s1, s2) ==                         \* :98-112
-    /\ pc = "ls" /\ LSClose(LSCand(s1, s2))
-    /\ eta1' = eta2 /\ eta2' = LSCand(s1, s2)
-    /\ pc' = "update" /\ calls' = LSCalls(c1, c2)
-    /\ UNCHANGED <<load, stepNum, itv, c, fext, mats, resv, delta, iterLS, outv>>
-
-LineSearchGiveUp(c1, c2, s1, s2) ==                       \* :113-117
-    /\ pc = "ls" /\ ~LSClose(LSCand(s1, s2)) /\ iterLS + 1 = maxIterLS
-    /\ eta1' = eta2 /\ eta2' = ROne /\ iterLS' = iterLS + 1
-    /\ pc' = "update" /\ calls' = LSCalls(c1, c2)
+(* one pass of the line-search loop :98-117; kind = which way it leaves the pass *)
+LSPass(c1, c2, s1, s2, kind) ==
+    /\ pc = "ls"
+    /\ LET e     == LSCand(s1, s2)
+           close == LSClose(e)
+       IN /\ CASE kind = "done"   -> close                                   \* :111-112
+               [] kind = "giveup" -> ~close /\ iterLS + 1 = maxIterLS         \* :113-117
+               [] kind = "iter"   -> ~close /\ iterLS + 1 # maxIterLS
+          /\ eta1' = eta2
+          /\ eta2' = IF kind = "giveup" THEN ROne ELSE e
+    /\ iterLS' = IF kind = "done" THEN iterLS ELSE iterLS + 1
+    /\ pc' = IF kind = "iter" THEN "ls" ELSE "update"
+    /\ calls' = LSCalls(c1, c2)
     /\ UNCHANGED <<load, stepNum, itv, c, fext, mats, resv, delta, outv>>
-
-LineSearchIter(c1, c2, s1, s2) ==
-    /\ pc = "ls" /\ ~LSClose(LSCand(s1, s2)) /\ iterLS + 1 # maxIterLS
-    /\ eta1' = eta2 /\ eta2' = LSCand(s1, s2) /\ iterLS' = iterLS + 1
-    /\ pc' = "ls" /\ calls' = LSCalls(c1, c2)
-    /\ UNCHANGED <<load, stepNum, itv, c, fext, mats, resv, delta, outv>>
+LineSearchDone(c1, c2, s1, s2)   == LSPass(c1, c2, s1, s2, "done")
+LineSearchGiveUp(c1, c2, s1, s2) == LSPass(c1, c2, s1, s2, "giveup")
+LineSearchIter(c1, c2, s1, s2)   == LSPass(c1, c2, s1, s2, "iter")
 
 UpdateC(cn) ==                                            \* :119   cn = c + eta2*delta_c
     /\ pc = "update"
@@ -341,25 +341,21 @@ BisectVals ==                                             \* :152-158, 162
         i1 == FMul(inc, F03)
     IN [once |-> onceAtTotal \/ NearOne(total), t1 |-> t1, i1 |-> i1, t2 |-> FAdd(t1, i1)]
 
-StopMinInc ==                                             \* :159-161,167-170
-    /\ pc = "bisect" /\ RLt(BisectVals.i1, minInc)
-    /\ onceAtTotal' = BisectVals.once /\ total' = BisectVals.t1 /\ inc' = BisectVals.i1
-    /\ pc' = "done" /\ calls' = <<>>
+BisectTo(next) ==      \* next: where the bisection loop goes
+    /\ pc = "bisect"
+    /\ LET b == BisectVals
+       IN /\ CASE next = "done"    -> RLt(b.i1, minInc)                                  \* :159-161,167-170
+               [] next = "restart" -> ~RLt(b.i1, minInc) /\ RLt(b.t2, maxTotal)           \* :162-166
+               [] next = "bisect"  -> ~RLt(b.i1, minInc) /\ ~RLt(b.t2, maxTotal)          \* :163-164 `continue`
+          /\ onceAtTotal' = b.once /\ inc' = b.i1
+          /\ total' = IF next = "done" THEN b.t1 ELSE b.t2
+    /\ pc' = next /\ calls' = <<>>
     /\ UNCHANGED <<maxTotal, stepNum, itv, c, fext, mats, resv, lsv, outv>>
-
-Bisect ==                                                 \* :162-166
-    /\ pc = "bisect" /\ ~RLt(BisectVals.i1, minInc) /\ RLt(BisectVals.t2, maxTotal)
-    /\ onceAtTotal' = BisectVals.once /\ total' = BisectVals.t2 /\ inc' = BisectVals.i1
-    /\ pc' = "restart" /\ calls' = <<>>
-    /\ UNCHANGED <<maxTotal, stepNum, itv, c, fext, mats, resv, lsv, outv>>
-
-BisectAgain ==                                            \* :163-164 `continue`
-    \* total - inc + 0.3 inc >= max_total >= total needs inc <= 0: unreachable for admissible
-    \* settings (invariant BisectAgainDead); kept because the code has the branch.
-    /\ pc = "bisect" /\ ~RLt(BisectVals.i1, minInc) /\ ~RLt(BisectVals.t2, maxTotal)
-    /\ onceAtTotal' = BisectVals.once /\ total' = BisectVals.t2 /\ inc' = BisectVals.i1
-    /\ pc' = "bisect" /\ calls' = <<>>
-    /\ UNCHANGED <<maxTotal, stepNum, itv, c, fext, mats, resv, lsv, outv>>
+StopMinInc  == BisectTo("done")
+Bisect      == BisectTo("restart")
+(* total - inc + 0.3 inc >= max_total >= total needs inc <= 0: unreachable for admissible     *)
+(* settings (invariant BisectAgainDead); kept because the code has the branch.                *)
+BisectAgain == BisectTo("bisect")
 
 RestartFromLast ==                                        \* :172-173  (cs[-1].copy())
     /\ pc = "restart" /\ Len(cs) > 0
